@@ -44,7 +44,10 @@ class Obj:
 
     @property
     def term(self):
-        return sym(self.name)
+        # a rule may give an abstract record a value ("$value"): arithmetic, comparisons and embedding into
+        # terms then use that value instead of the opaque name
+        v = self.__dict__["attrs"].get("$value")
+        return sym(self.name) if v is None else v
 
 
 class Ent(Obj):
@@ -227,10 +230,16 @@ _PYCMP = {"==": operator.eq, "!=": operator.ne, "<": operator.lt, "<=": operator
           ">=": operator.ge}
 _NEGATIVE = {"!=": "==", "not in": "in", "is not": "is"}
 _NOISE_RECEIVERS = {"logger", "logging", "warnings"}
+_MAYBE_NONE = {"sym", "call", "mcall", "attr", "item", "elem", "ite", "slice", "binop"}
 
 
 def _is_sym(v):
     return isinstance(v, T)
+
+
+def _subterms(t):
+    from .terms import subterms
+    return subterms(t)
 
 
 def _has_sym(v, depth=3):
@@ -252,7 +261,7 @@ class Symex:
 
     def __init__(self, model, inline=None, hooks=None, unroll=2, max_paths=512, max_steps=200000, what="?",
                  assume_asserts=True, isinstance_hook=None, attr_hook=None, max_depth=12, cut_loops=False,
-                 oracle=None, occurrence=None, recursion_error=False):
+                 oracle=None, occurrence=None, recursion_error=False, normalize=None):
         self.model = model
         self.inline = inline or (lambda q: False)
         self.hooks = dict(hooks or {})
@@ -272,6 +281,8 @@ class Symex:
         # event (T("occ", term, k)), so that a value computed once and used twice is distinguishable from two calls
         self.occurrence = occurrence
         self.recursion_error = recursion_error  # exceeding max_depth is the analysed program's RecursionError
+        self.normalize = normalize          # callable(term) -> term applied to results of symbolic arithmetic
+        self.inplace = False                # True while an augmented assignment is evaluated
         self._modconst = {}
         self.fresh_n = 0
         self.on_start = None
@@ -464,7 +475,12 @@ class Symex:
             if isinstance(cur, set) and isinstance(s.op, (ast.BitOr,)):
                 cur.update(v)
                 return
-            self.assign(s.target, self.binop(s.op, cur, v, s))
+            self.inplace = True         # visible to rule-defined arithmetic ("$binop"): `x op= y`
+            try:
+                r = self.binop(s.op, cur, v, s)
+            finally:
+                self.inplace = False
+            self.assign(s.target, r)
         elif isinstance(s, ast.Assert):
             c = self.ev(s.test)
             if isinstance(c, T) and self.assume_asserts:
@@ -760,6 +776,18 @@ class Symex:
             r = h(self, op, a, b, node)
             if r is not NotImplemented:
                 return r
+        # abstract records may define their own arithmetic: attrs["$binop"](sx, op, left, right, node)
+        for x in (a, b):
+            if isinstance(x, Obj) and callable(x.attrs.get("$binop")):
+                r = x.attrs["$binop"](self, op, a, b, node)
+                if r is not NotImplemented:
+                    return r
+        r = self._binop(op, a, b, node)
+        if self.normalize is not None and isinstance(r, T):
+            r = self.normalize(r)
+        return r
+
+    def _binop(self, op, a, b, node):
         if isinstance(a, Ext) and a.name in _SYMPY_NUM:
             a = _SYMPY_NUM[a.name]
         if isinstance(b, Ext) and b.name in _SYMPY_NUM:
@@ -878,7 +906,11 @@ class Symex:
             # an abstract record among abstract records: identity, as for ``==`` of two records
             found = any(e is a for e in b)
             return found if opname == "in" else not found
-        if isinstance(a, Obj) and not (opname in ("is", "is not", "==", "!=") and isinstance(b, Obj)):
+        if opname in ("is", "is not") and ((isinstance(a, Obj) and b is None and a.attrs.get("$id")) or
+                                           (isinstance(b, Obj) and a is None and b.attrs.get("$id"))):
+            return opname == "is not"           # a record declared an individual ("$id") is never None
+        if isinstance(a, Obj) and not (opname in ("is", "is not", "==", "!=") and isinstance(b, Obj)) \
+                and not (opname in ("in", "not in") and a.attrs.get("$id")):
             a = a.term
         if isinstance(b, Obj) and not isinstance(a, Obj):
             b = b.term
@@ -888,6 +920,9 @@ class Symex:
                 return r if opname == "in" else t_not(r)
             return r if opname == "in" else not r
         if opname in ("is", "is not"):
+            if (a is None and isinstance(b, T) and b.op not in _MAYBE_NONE) or \
+                    (b is None and isinstance(a, T) and a.op not in _MAYBE_NONE):
+                return opname == "is not"       # an arithmetic / constructed value is never None
             if isinstance(a, T) or isinstance(b, T):
                 if a is None or b is None or isinstance(a, T) and isinstance(b, T):
                     if isinstance(a, T) and isinstance(b, T) and a == b:
@@ -896,6 +931,14 @@ class Symex:
                 return opname == "is not"
             same = a is b or (_plain(a) and _plain(b) and type(a) is type(b) and a == b)
             return same if opname == "is" else not same
+        if (isinstance(a, T) or isinstance(b, T)) and opname in ("==", "!=") and self.normalize is not None:
+            # with a rule-supplied normal form, equality of two constructed values is equality of their normal forms
+            if all(isinstance(x, T) and x.op not in _MAYBE_NONE or is_num(x) for x in (a, b)) and \
+                    not any(y.op in _MAYBE_NONE and y.op != "sym" for x in (a, b) if isinstance(x, T) for y in _subterms(x)):
+                d = self.normalize(t_sub(a, b))
+                if is_num(d):
+                    return (d == 0) == (opname == "==")
+                return opname == "!="
         if isinstance(a, T) or isinstance(b, T):
             if isinstance(a, T) and isinstance(b, T) and a == b and opname in ("==", "<=", ">="):
                 return True
@@ -918,9 +961,9 @@ class Symex:
 
     def contains(self, coll, x, node):
         if isinstance(coll, (list, tuple, set, frozenset, dict)) and (
-                isinstance(x, Atom) or (isinstance(x, Ent) or isinstance(x, Obj) and x.attrs.get("_identity"))
+                isinstance(x, Atom) or (isinstance(x, Ent) or isinstance(x, Obj) and (x.attrs.get("_identity") or x.attrs.get("$id")))
                 and not any(isinstance(e, T) for e in coll)):
-            # records declared pairwise distinct: membership is decided by identity, not forked on
+            # records declared pairwise distinct / individuals: membership is decided by identity, not forked on
             return any(e is x for e in coll)
         if isinstance(coll, Obj):
             coll = coll.term
@@ -982,10 +1025,15 @@ class Symex:
                 if isinstance(v, T):
                     return t_not(v)
                 return not self.truth(v, n.operand)
+            if isinstance(v, Obj) and callable(v.attrs.get("$binop")) and isinstance(n.op, ast.USub):
+                return self.binop(ast.Mult(), -1, v, n)     # rule-defined arithmetic: -x = (-1) * x
             if isinstance(v, Obj):
                 v = v.term
             if isinstance(n.op, ast.USub):
-                return t_neg(v) if isinstance(v, T) else -v
+                if isinstance(v, T):
+                    r = t_neg(v)
+                    return self.normalize(r) if self.normalize is not None and isinstance(r, T) else r
+                return -v
             if isinstance(n.op, ast.UAdd):
                 return v
             self.unsupported(n)
@@ -1292,7 +1340,9 @@ class Symex:
             key = f"{recv.cls.split(':')[-1]}.{name}" if recv.cls else name
             for hk in (key, name):
                 if hk in self.hooks and callable(self.hooks[hk]):
-                    return self.hooks[hk](self, [recv] + list(args), kw)
+                    r = self.hooks[hk](self, [recv] + list(args), kw)
+                    if r is not NotImplemented:
+                        return r
             if name in recv.attrs:
                 return self.call_value(recv.attrs[name], args, kw, node)
             m = self.find_method(recv.cls, name) if recv.cls else None
@@ -1542,6 +1592,28 @@ class Symex:
             for x in self.iterate(args[0], node):
                 out.extend(self.iterate(x, node))
             return out
+        if name == "dict.fromkeys" and len(args) in (1, 2) and not isinstance(args[0], T):
+            return {k: (args[1] if len(args) == 2 else None) for k in self.iterate(args[0], node)}
+        if short == "reduce" and len(args) in (2, 3) and not isinstance(args[1], T):
+            seq = list(self.iterate(args[1], node))
+            if len(args) == 3:
+                acc = args[2]
+            elif seq:
+                acc, seq = seq[0], seq[1:]
+            else:
+                raise Raised("TypeError", None, node)
+            for x in seq:
+                acc = self.call_value(args[0], [acc, x], {}, node)
+            return acc
+        if short == "prod" and len(args) >= 1 and not isinstance(args[0], T):
+            acc = args[1] if len(args) > 1 else kw.get("start", 1)
+            for x in self.iterate(args[0], node):
+                acc = self.binop(ast.Mult(), acc, x, node)
+            return acc
+        if name in _OPERATOR and len(args) == 2:
+            return self.binop(_OPERATOR[name](), args[0], args[1], node)
+        if name in ("operator.neg", "neg") and len(args) == 1:
+            return self.binop(ast.Mult(), -1, args[0], node)
         if name in ("chain",) and all(not isinstance(a, T) for a in args):
             out = []
             for x in args:
@@ -1903,6 +1975,8 @@ _BIN = {ast.Add: operator.add, ast.Sub: operator.sub, ast.Mult: operator.mul, as
 
 _BUILTIN_CONST = {"True": True, "False": False, "None": None}
 _SYMPY_NUM = {"S.One": 1, "S.Zero": 0, "S.NegativeOne": -1, "S.Half": Fraction(1, 2)}
+_OPERATOR = {"operator.add": ast.Add, "operator.sub": ast.Sub, "operator.mul": ast.Mult, "operator.truediv": ast.Div,
+             "operator.pow": ast.Pow, "operator.iadd": ast.Add, "operator.imul": ast.Mult}
 
 _BUILTINS = {
     "len": len, "range": range, "int": int, "str": str, "abs": abs, "sum": sum, "list": list, "tuple": tuple,
